@@ -1,6 +1,7 @@
 package core
 
 import (
+	"os"
 	"encoding/hex"
 	"encoding/json"
 	"fmt"
@@ -247,6 +248,7 @@ func siteClass(s Site) string {
 func (e *Engine) DoBlock(st *Step) (*ChainBlock, error) {
 	if !e.Replay {
 		e.Trace.Steps = append(e.Trace.Steps, st)
+		e.streamTrace()
 	}
 	e.begin(st, e.C.Height()+1)
 	defer func() { e.cur = nil }()
@@ -296,6 +298,7 @@ func (e *Engine) DoRestart(st *Step) error {
 func (e *Engine) DoChecks(st *Step) {
 	if !e.Replay {
 		e.Trace.Steps = append(e.Trace.Steps, st)
+		e.streamTrace()
 	}
 	if st.Replica < 0 || st.Replica >= len(e.C.Replicas) {
 		return
@@ -339,4 +342,22 @@ func (s *Stats) Fingerprint() string {
 		h *= 1099511628211
 	}
 	return fmt.Sprintf("%016x", h)
+}
+
+// streamTrace writes the trace recorded so far (including the step about to run) to the file named by
+// OLSIM_TRACE_STREAM, so that the parent still has the exact prefix when the process is killed by
+// os.Exit or an escaped panic (C18).
+func (e *Engine) streamTrace() {
+	p := os.Getenv("OLSIM_TRACE_STREAM")
+	if p == "" {
+		return
+	}
+	b, err := json.Marshal(e.Trace)
+	if err != nil {
+		return
+	}
+	tmp := p + ".tmp"
+	if os.WriteFile(tmp, b, 0644) == nil {
+		os.Rename(tmp, p)
+	}
 }
